@@ -29,6 +29,13 @@ PROPS = {
         ],
         "assumptions": ["a request counts as carrying the repository's credentials when its Authorization header is exactly Basic user:secret"],
     },
+    "C17": {
+        "corr": [("prov", {"quick": 800, "thorough": 20000})],
+        "trusted_base": [
+            "parameters of the model, not verified: OpenPGP signature checking and clearsign framing (golang.org/x/crypto/openpgp), SHA-256, YAML parsing of the message block; the corollaries about tampering carry explicit hypotheses (SHA-256 does not collide on the inputs considered; the keyring accepts no other (text, signature) pair) -- 'no accepted mutant' over the generated mutants is a search result of the correspondence, not a theorem",
+        ],
+        "assumptions": ["sha256 collision-freeness and signature unforgeability are hypotheses of the tamper theorems"],
+    },
     "C18": {
         "corr": [("index", {"quick": 1500, "thorough": 30000})],
         "trusted_base": [
